@@ -16,7 +16,17 @@ from liesel.goose.kernel_sequence import KernelSequence
 Y = np.array([0.3, -0.8, 1.9, 0.4, 1.1], dtype=np.float32)
 
 
-def build_model(auto_update):
+def build_model(auto_update, history=None):
+    """history = 'pop' / 'copy': the model's variables were used in an EARLIER model (both parameters assigned there), taken out of it
+    (pop_nodes_and_vars / copy_nodes_and_vars) and built into the model that is returned"""
+    if history is not None:
+        first = build_model(True)
+        for nm, v in (("mu", 0.7), ("log_sigma", -0.4), ("mu", 0.0), ("log_sigma", 0.1)):
+            first.vars[nm].value = v
+        nodes, vars_ = first.pop_nodes_and_vars() if history == "pop" else first.copy_nodes_and_vars()
+        model = lsl.GraphBuilder().add(*nodes.values(), *vars_.values()).build_model()
+        model.auto_update = auto_update
+        return model
     mu = lsl.param(0.0, lsl.Dist(tfd.Normal, loc=0.0, scale=3.0), name="mu")
     log_sigma = lsl.param(0.1, lsl.Dist(tfd.Normal, loc=0.0, scale=1.0), name="log_sigma")
     sigma = lsl.Var(lsl.Calc(jnp.exp, log_sigma), name="sigma")
@@ -49,9 +59,9 @@ def check_state(state, what, inp):
     return None
 
 
-def liesel_case(col, auto_update, second, seed, n_iter):
-    inp = {"auto_update": auto_update, "kernels": ["RW(mu)", second], "seed": seed}
-    model = build_model(auto_update)
+def liesel_case(col, auto_update, second, seed, n_iter, history=None):
+    inp = {"auto_update": auto_update, "kernels": ["RW(mu)", second], "seed": seed, "model_rebuilt_from_an_earlier_model": history}
+    model = build_model(auto_update, history)
     iface = gs.LieselInterface(model)
     k1 = gs.RWKernel(["mu"], initial_step_size=1.0)
     if second == "Gibbs":
@@ -386,11 +396,13 @@ def bounded(tier, seed):
     combos = [(True, "Gibbs"), (False, "Gibbs"), (False, "NUTS")] if tier == "quick" else [(a, s) for a in (True, False) for s in ("Gibbs", "NUTS", "IWLS")]
     for au, second in combos:
         liesel_case(col, au, second, seed + 11, n)
+    for hist in ("pop", "copy"):  # variables with a history in an earlier model
+        liesel_case(col, True, "Gibbs", seed + 11, n, history=hist)
     dict_case(col, seed + 5, n)
     return {
         "evaluations": col.evals, "distinct_nontrivial": len(combos) + 1,
         "rule": (CORE_RULE + "; " + f"BOUNDED: Liesel model (mu, log_sigma, derived sigma=exp(log_sigma), leaf pred=2mu+1, 5 observations) with kernel sequences RW(mu) + "
-                 f"{{Gibbs, NUTS, IWLS}}(log_sigma), auto_update on and off, {n} jitted iterations each: after every single-kernel transition and every iteration the stored sigma, pred, "
+                 f"{{Gibbs, NUTS, IWLS}}(log_sigma), auto_update on and off (and the model rebuilt from the popped / copied variables of an earlier model in which the parameters had been assigned), {n} jitted iterations each: after every single-kernel transition and every iteration the stored sigma, pred, "
                  "log-lik, log-prior, log-prob are compared with closed-form recomputation from the stored parameters (float64), and the other block must be bitwise "
                  f"unchanged; same blockwise check on a dict model with RW + HMC; a model whose likelihood sits on a weak variable with a distribution (value path deeper than parameter path, single-key positions); a model built with the deprecated GraphBuilder.transform (a calculation directly on a value node) sampled with variable-name position keys; two update_state calls with different keys on one state object; a Gibbs kernel whose draws have another dtype than the stored value (eager); the built-in tau2 Gibbs kernel on a state whose hyper-parameters differ from those at kernel creation; a model with a legacy PIT node (caching node outside the Calc / Dist hierarchy) under two RW kernels; two order-sensitive deterministic Gibbs kernels with "
                  f"identifiers whose alphabetical order differs from the configured order (bare KernelSequence and through EngineBuilder). seed={seed}"),
